@@ -5,7 +5,7 @@ C13: free list == inactive slots, nothing lost or duplicated, C01: the allocator
 identifier -> location).  Shapes and preconditions come from the code and its call sites.
 """
 from ..vxlib import Unit, Fn, Loop, Hint
-from .common import PRELUDE_STD, PRELUDE_REGISTRY, PRELUDE_HASHMAP
+from .common import PRELUDE_STD, REGISTRY_TRAIT, ARCHETYPE_MOD_OPEN, PRELUDE_HASHMAP
 
 A = "src/entity/allocator/mod.rs"
 S = "src/entity/allocator/slot.rs"
@@ -224,10 +224,14 @@ pub proof fn witness_hist_inv_reachable<R: Registry>(a: &Allocator<R>)
 '''
 
 
-def build():
-    u = Unit("alloc")
+def build(name="alloc", archetype_items=None):
+    u = Unit(name)
     u.text(PRELUDE_STD)
-    u.text(PRELUDE_REGISTRY)
+    u.text(REGISTRY_TRAIT)
+    u.text(ARCHETYPE_MOD_OPEN)
+    if archetype_items:
+        archetype_items(u)
+    u.text("}")
     u.text(PRELUDE_HASHMAP)
     # ---- entity::Identifier
     u.text("pub mod entity {\n    use super::*;")
